@@ -376,10 +376,59 @@ def r3_scan(rep, ctx):
     rep.check(init_ok, "C12.R3", "scan:initialised-from-element", "both accumulators start from the first non-NaN element", "the accumulators are not both initialised from the first non-NaN element", node=outer, fn=fn)
     want = set(mins) | set(maxs)
     checked = set()
+    # which accumulators a value is a copy of: plain copies, float(...), and pairs packed and unpacked by position
+    # (`r = (float(lo), float(hi))` ... `lo2, hi2 = r` ... `CheckValue(lo2)`)
+    assigns = [st for st in own_statements(fn.node) if isinstance(st, ast.Assign) and len(st.targets) == 1]
+    pair_loops = {lp_.target.id: lp_.iter for lp_ in own_statements(fn.node) if isinstance(lp_, ast.For) and isinstance(lp_.target, ast.Name) and isinstance(lp_.iter, ast.Name) and lp_ not in it_loops}
+
+    def srcs(e, depth=0, pos=None):
+        if depth > 6:
+            return set()
+        if isinstance(e, ast.Name):
+            if pos is None and e.id in want:
+                return {e.id}
+            out_ = set()
+            for st in assigns:
+                t_ = st.targets[0]
+                if isinstance(t_, ast.Name) and t_.id == e.id and not (isinstance(st.value, ast.Name) and st.value.id == e.id):
+                    out_ |= srcs(st.value, depth + 1, pos)
+                elif pos is None and isinstance(t_, ast.Tuple):
+                    for i_, x_ in enumerate(t_.elts):
+                        if isinstance(x_, ast.Name) and x_.id == e.id:
+                            out_ |= srcs(st.value, depth + 1, i_)
+            if pos is None and e.id in pair_loops:
+                # the variable of a loop over the pair: each of its members in turn
+                out_ |= srcs(pair_loops[e.id], depth + 1, 0) | srcs(pair_loops[e.id], depth + 1, 1)
+            return out_
+        if isinstance(e, ast.Call) and isinstance(e.func, ast.Name) and e.func.id == "float" and len(e.args) == 1 and pos is None:
+            return srcs(e.args[0], depth + 1)
+        if isinstance(e, ast.Tuple) and pos is not None and pos < len(e.elts):
+            return srcs(e.elts[pos], depth + 1)
+        if isinstance(e, ast.IfExp):
+            return srcs(e.body, depth + 1, pos) | srcs(e.orelse, depth + 1, pos)
+        return set()
+
+    # a result that is None when nothing was found: on the paths from the scan loop it is the pair, so the edge on which
+    # it is None is not taken (every path from the scan to that test builds the pair first)
+    infeasible = set()
+    for nid in scfg.nodes("test"):
+        e_ = scfg.ast[nid]
+        if isinstance(e_, ast.Compare) and len(e_.ops) == 1 and isinstance(e_.ops[0], (ast.Is, ast.IsNot)) and isinstance(e_.left, ast.Name) and isinstance(e_.comparators[0], ast.Constant) and e_.comparators[0].value is None:
+            if all(srcs(e_.left, 0, i_) for i_ in (0, 1)) and (srcs(e_.left, 0, 0) | srcs(e_.left, 0, 1)) >= want:
+                pack = {scfg.node_of(st) for st in assigns if isinstance(st.value, ast.Tuple) and len(st.value.elts) == 2 and any(srcs(x_) for x_ in st.value.elts)}
+                if pack and nid not in scfg.reach(H, avoid=pack):
+                    none_lab = "T" if isinstance(e_.ops[0], ast.Is) else "F"
+                    infeasible |= {(nid, b_, l_) for (b_, l_) in scfg.succ[nid] if l_ == none_lab}
     for acc in sorted(want):
         # every path from the scan loop to a normal exit hands the accumulator to CheckValue
-        nodes = {scfg.node_of(st) for st in own_statements(fn.node) if isinstance(st, ast.Expr) and is_checkvalue(st.value) and st.value.args and isinstance(st.value.args[0], ast.Name) and st.value.args[0].id == acc}
-        if nodes and scfg.EXIT not in scfg.reach(H, avoid=nodes):
+        nodes = {scfg.node_of(st) for st in own_statements(fn.node) if isinstance(st, ast.Expr) and is_checkvalue(st.value) and st.value.args
+                 and (srcs(st.value.args[0]) == {acc} or (isinstance(st.value.args[0], ast.Name) and st.value.args[0].id in pair_loops and acc in srcs(st.value.args[0])))}
+        # a loop over the pair that hands its variable to CheckValue in every iteration checks each member (a pair is not empty)
+        for lp_ in own_statements(fn.node):
+            if isinstance(lp_, ast.For) and isinstance(lp_.target, ast.Name) and lp_.target.id in pair_loops and acc in srcs(lp_.target) \
+                    and any(isinstance(b_, ast.Expr) and is_checkvalue(b_.value) and b_.value.args and isinstance(b_.value.args[0], ast.Name) and b_.value.args[0].id == lp_.target.id for b_ in lp_.body):
+                nodes.add(scfg.node_of(lp_))
+        if nodes and scfg.EXIT not in scfg.reach(H, avoid=nodes, avoid_edges=infeasible):
             checked.add(acc)
     rep.check(bool(want) and want <= checked, "C12.R3", "scan:both-extremes-checked", "the smallest and the largest element are both handed to CheckValue",
               "only %s of the extremes %s reach CheckValue: a violation of the other limit goes unnoticed" % (sorted(checked), sorted(want)), node=outer, fn=fn)
